@@ -1,4 +1,5 @@
 import json
+import re
 from typing import List, Optional, Tuple
 
 from .base import GenericModelCodeGenerator, KWAGRS_TEMPLATE, sort_kwargs, template
@@ -105,5 +106,7 @@ class PydanticModelCodeGenerator(GenericModelCodeGenerator):
     def _get_field_kwargs(self, name: str, meta: MetaData, optional: bool, data: dict):
         body_kwargs = {}
         if name != data["name"]:
-            body_kwargs["alias"] = json.dumps(name, ensure_ascii=False)
+            alias = json.dumps(name, ensure_ascii=False)
+            # An unpaired surrogate (valid in JSON) can not be written to a source file: keep it as an escape
+            body_kwargs["alias"] = re.sub(r'[\ud800-\udfff]', lambda m: '\\u%04x' % ord(m.group()), alias)
         return body_kwargs
